@@ -50,11 +50,28 @@ func diff(old, nw []byte, parts, conc int, warm bool) ([]*bsdiff.Control, error)
 			return nil, fmt.Errorf("warm-up diff (roles swapped): %w", err)
 		}
 	}
-	err := dc.Do(bytes.NewReader(old), bytes.NewReader(nw), func(m proto.Message) error {
+	// Do takes io.Readers: "old" and "new" are whatever remains to be read. In two cases out of three (decided
+	// from the case alone) the readers are seekable ones handed over at a non-zero position, behind a header
+	var or, nr io.Reader = bytes.NewReader(old), bytes.NewReader(nw)
+	if adv := []int{0, 5, 1000}[(len(old)+2*len(nw))%3]; adv > 0 {
+		or, nr = advanced(old, adv), advanced(nw, adv+3)
+	}
+	err := dc.Do(or, nr, func(m proto.Message) error {
 		ctrls = append(ctrls, proto.Clone(m).(*bsdiff.Control))
 		return nil
 	}, h.Quiet())
 	return ctrls, err
+}
+
+// advanced returns a seekable reader over "header + data", positioned behind the header.
+func advanced(data []byte, hdr int) io.Reader {
+	b := make([]byte, 0, hdr+len(data))
+	for i := 0; i < hdr; i++ {
+		b = append(b, byte('H'+i%5))
+	}
+	r := bytes.NewReader(append(b, data...))
+	r.Seek(int64(hdr), io.SeekStart)
+	return r
 }
 
 // refApply is the reference applier: direct indexing into old.
